@@ -1,14 +1,38 @@
 //@ item src/sources/mod.rs / struct Idle props=C13
 //@ enditem
-//@ item src/sources/mod.rs / trait CancellableIdle props=C13
+//@ open src/sources/mod.rs / trait CancellableIdle
+//@ region cancellable_ghost props=C13
+    /// the slot holds no callback any more (defined by the implementor)
+    spec fn cancelled(&self) -> bool;
+//@ endregion
+//@ item src/sources/mod.rs / trait CancellableIdle / fn cancel props=C13
+//@ spec
+        ensures final(self).cancelled(),
 //@ enditem
+//@ close
 //@ open src/sources/mod.rs / impl CancellableIdle for Option<F>
+//@ region cancellable_impl_ghost props=C13
+    open spec fn cancelled(&self) -> bool { *self is None }
+//@ endregion
 //@ item src/sources/mod.rs / impl CancellableIdle for Option<F> / fn cancel props=C13
 //@ spec
         // cancel empties the shared slot: the idle callback can never run afterwards
         ensures *final(self) is None,
 //@ enditem
 //@ close
+impl<'i> Idle<'i> {
+//@ slice src/sources/mod.rs / impl Idle<'_> / fn cancel :: body props=C13 name=Idle::cancel
+//@ rw R10 * <<self.callback.borrow_mut()>> => <<slot>>
+//@ sig
+/// S1 slice: the whole body of Idle::cancel. Rule R10: the borrow of the slot shared with the loop's idle queue becomes
+/// the parameter `slot` (the by-value `self` is only used for that borrow).
+fn idle_cancel_body(slot: &mut (dyn CancellableIdle + 'i))
+//@ spec
+    ensures
+        // C13: the user's cancel handle empties the very slot the loop's idle queue holds: the callback cannot run afterwards
+        final(slot).cancelled(),
+//@ endslice
+}
 
 //@ open src/sources/mod.rs / trait IdleDispatcher
 //@ region idle_ghost props=C13
